@@ -19,6 +19,12 @@ CHECKS = {
         note="Trusted: pyvc, z3. Assumed: create_branch by contract (parent path + pending condition); the worklist/activation discipline of SEVM.run (every pushed state is later popped, activated and run) is NOT under contract, so this is per-unit coverage, not a whole-exploration theorem; hash range/injectivity and MAX_ETH are the documented modelling assumptions; assert/assume arms are proved in the C13 pack; arith axioms in the C06 pack.",
         technique="sigma-coverage VCs generated from the real source AST (pyvc) with the solver as a contract, z3",
     ),
+    "C09": dict(
+        text="Deductive per frame, with ownership/frame conditions: the real bodies of SEVM.call (send_callvalue, call_known and its callback), SEVM.create (and its callback), SEVM.sstore and the LOG arms are executed from the AST on real Exec objects with symbolic words. Proved: message construction per scheme (own address, sender, value, origin, static flag inherited or set, callee code from pc 0 on an empty frame, one level deeper); the snapshot (code map, storage, transient storage, balance, taken before the value transfer) consists of objects NOT reachable from the state the sub-frame works on, so restoration is exact for every callee behaviour; a failing frame leaves storage, transient storage, balances and code exactly as before (fresh copies), flag 0; a successful frame's effects persist, flag 1; return data copy; caller stack/memory/pc/loop record restored; the continuation owns a deep copy of the caller's context (trace, prank); stuck sub-frames end the path reported; insufficient-funds successor for CALL and CALLCODE; value moves for CALL only, pointwise; SSTORE/TSTORE/LOGn/CREATE/CREATE2 fail inside static frames; CREATE/CREATE2 frames, new-account setup and undo. One genuine defect is a recorded known finding (value-bearing CALL inside a static frame is accepted).",
+        ref="DESIGN.md 4/C09 and 11",
+        note="Trusted: pyvc, z3, the object-graph reachability walk. Assumed: SEVM.run delivers each sub-frame's end state to its callback exactly once (worklist protocol, not under contract) - atomicity of whole call trees follows by induction on nesting only under that assumption; copy.deepcopy; one representative call layout with symbolic words; call_unknown (precompiles, cheatcode addresses, accounts without code) is not under contract.",
+        technique="per-frame contracts with ownership/frame conditions: real AST of call/create and callbacks executed by pyvc on real Exec objects with symbolic words; snapshot unreachability proves exact restoration for every callee behaviour; z3",
+    ),
     "C10": dict(
         text="Deductive: with a ghost warning log as the observable, the real bodies are executed from the AST and it is proved that (jumpi) for every solver answer, visit count and --loop value a direction that is not proved infeasible and not followed is recorded in bounded_loops, a decided condition is never cut, counters advance; (run) a state is discarded iff --depth is set and exceeded and then a warning naming --depth is logged; an unsupported feature ends the path stuck and the state is still reported; (run_test) the loop is left iff --width is set and reached, with a warning; stuck paths are kept unless proved infeasible; (run_test, setup, run_target_function) non-empty bounded_loops of the engine that ran => LOOP_BOUND warning; stuck calls in invariant testing are logged.",
         ref="DESIGN.md 4/C10 and 11",
